@@ -1,5 +1,5 @@
 (* C11 — lemmas about Model/Batch.v: a batch (with the `break`) is the sequential run. *)
-From Coq Require Import List ZArith Bool Lia.
+From Coq Require Import List ZArith Arith Bool Lia.
 Import ListNotations.
 From V Require Import Model.Batch.
 
@@ -149,6 +149,86 @@ Section BatchProofs.
     eapply loop_stream_failure; eauto.
   Qed.
 
+
+  (* ---- histories of a re-used BatchProxy ------------------------------------------- *)
+  Lemma loop_results_len : forall calls s l,
+    sv_reply (loop true calls s) = RResults l ->
+    length (r_outs (seq calls s)) = length (r_log (seq calls s)).
+  Proof.
+    induction calls as [|c rest IH]; intros s l; cbn [server_loop run_seq].
+    - reflexivity.
+    - destruct (gate s c); [cbn; discriminate|].
+      destruct (step s c) as [s' [v|e]].
+      + cbn. destruct (sv_reply (loop true rest s')) as [l'|e'] eqn:R; [|discriminate].
+        intros _. f_equal. eapply IH. exact R.
+      + reflexivity.
+  Qed.
+
+  Lemma firstn_length_nth : forall (A : Type) (l : list A) n x, nth_error l n = Some x -> length (firstn n l) = n.
+  Proof.
+    intros A l n x H. rewrite firstn_length. apply Nat.min_l.
+    apply Nat.lt_le_incl. apply nth_error_Some. congruence.
+  Qed.
+
+  Lemma stream_spec : forall ow calls s,
+    stream_of (b_obs (batch true ow calls s)) =
+    if ow || seq_refused (seq calls s) then [] else r_outs (seq calls s).
+  Proof.
+    intros ow calls s. unfold run_batch. cbn [b_obs client_view].
+    destruct ow; [reflexivity|]. cbn [orb].
+    destruct (sv_reply (loop true calls s)) as [l|e] eqn:R; cbn [stream_of].
+    - unfold seq_refused. rewrite (loop_results_len calls s l R), Nat.ltb_irrefl.
+      apply loop_results. exact R.
+    - destruct (loop_error calls s e R) as [vs [c [Ho [Hn [_ Hl]]]]].
+      unfold seq_refused. rewrite Ho, Hl, (firstn_length_nth _ _ _ _ Hn), app_length, map_length.
+      cbn [length].
+      assert (Hlt : (length vs <? length vs + 1)%nat = true) by (apply Nat.ltb_lt; lia).
+      rewrite Hlt. reflexivity.
+  Qed.
+
+  Definition item_rel (h : hitem state call value exn) (p : sitem state call value exn) : Prop :=
+    match h, p with
+    | HQueued, SQueued => True
+    | HSub calls b, SSub calls' ow q =>
+        calls = calls' /\ b_state b = r_state q /\ b_log b = r_log q /\
+        (if ow then b_obs b = CNothing else same_results calls (b_obs b) q)
+    | HIter o, SIter o' => o = o'
+    | _, _ => False
+    end.
+
+  Theorem history_equiv : forall brk, brk = true -> forall evs s queue subs,
+    Forall2 item_rel (fst (run_history gate step brk false evs s queue subs))
+                     (fst (spec_history gate step evs s queue subs))
+    /\ snd (run_history gate step brk false evs s queue subs) = snd (spec_history gate step evs s queue subs).
+  Proof.
+    intros brk ->. induction evs as [|ev evs IH]; intros s queue subs.
+    - cbn. split; [constructor|reflexivity].
+    - destruct ev as [c|ow|k n]; cbn [run_history spec_history].
+      + specialize (IH s (queue ++ [c]) subs).
+        destruct (run_history gate step true false evs s (queue ++ [c]) subs) as [t s1].
+        destruct (spec_history gate step evs s (queue ++ [c]) subs) as [t' s1'].
+        cbn in *. destruct IH as [H1 H2]. split; [constructor; [exact I|exact H1]|exact H2].
+      + rewrite andb_false_r.
+        assert (Hst : b_state (batch true ow queue s) = r_state (seq queue s)).
+        { destruct ow; [apply (oneway_batch true eq_refl) | apply (batch_equiv true eq_refl)]. }
+        rewrite (stream_spec ow queue s), Hst.
+        specialize (IH (r_state (seq queue s)) [] (subs ++ [if ow || seq_refused (seq queue s) then [] else r_outs (seq queue s)])).
+        destruct (run_history gate step true false evs (r_state (seq queue s)) []
+                    (subs ++ [if ow || seq_refused (seq queue s) then [] else r_outs (seq queue s)])) as [t s1].
+        destruct (spec_history gate step evs (r_state (seq queue s)) []
+                    (subs ++ [if ow || seq_refused (seq queue s) then [] else r_outs (seq queue s)])) as [t' s1'].
+        cbn in *. destruct IH as [H1 H2]. split; [|exact H2].
+        constructor; [|exact H1].
+        cbn. split; [reflexivity|].
+        destruct ow.
+        * destruct (oneway_batch true eq_refl queue s) as [A [B C]]. auto.
+        * destruct (batch_equiv true eq_refl queue s) as [A [B C]]. auto.
+      + specialize (IH s queue subs).
+        destruct (run_history gate step true false evs s queue subs) as [t s1].
+        destruct (spec_history gate step evs s queue subs) as [t' s1'].
+        cbn in *. destruct IH as [H1 H2]. split; [constructor; [reflexivity|exact H1]|exact H2].
+  Qed.
+
 End BatchProofs.
 
 (* ---- the accumulator instance: without the `break` the batch is NOT the sequential run *)
@@ -168,4 +248,16 @@ Lemma submit_fails_refuted :
   exists calls s, b_state (run_batch_submit_fails (value:=Z) ESubmit calls s) <> r_state (acc_seq calls s).
 Proof.
   exists nobreak_witness, 0. vm_compute. intros H; discriminate H.
+Qed.
+
+(* the defective re-use (finding reuse-after-failed-submit): a batch refused at submission stays
+   queued, the next submission runs its executed prefix again and never reaches the new call *)
+Definition keep_witness : list (event acall) :=
+  [ EvQueue {| c_meth := MAdd; c_arg := 1 |}; EvQueue {| c_meth := MHidden; c_arg := 1 |}; EvSubmit false;
+    EvQueue {| c_meth := MAdd; c_arg := 5 |}; EvSubmit false ].
+
+Lemma keep_on_raise_refuted :
+  exists evs s, snd (acc_history true true evs s [] []) <> snd (acc_spec_history evs s [] []).
+Proof.
+  exists keep_witness, 0. vm_compute. intros H; discriminate H.
 Qed.
